@@ -136,8 +136,9 @@ def inline_case(model: Model, call_node, new_nodes):
     real = ex.stmts(new_nodes)
     model.define(ex)
     got = model.ask("(inline %d %s %s)" % (n0 + 1, ref, args))
+    side = model.ask("(inlineok %s %s)" % (ref, args))
     exact = " ".join(real.split()) == " ".join(got.split())
-    res = {"exact": exact, "agree": exact, "real": real, "model": got, "n0": n0,
+    res = {"exact": exact, "agree": exact, "real": real, "model": got, "n0": n0, "side_conditions": side,
            "job": "(inline %d %s %s)" % (n0 + 1, ref, args), "defs": list(ex.defs)}
     if exact:
         return res
